@@ -40,6 +40,22 @@ CLAIMS = {
         design="§7 C01",
         note=TB + "numpydoc/google are not modelled (predicate on the code only); word_wrap=False here (wrapping is C18).",
     ),
+    "C15": dict(
+        technique="Lean 4 theorems (mutual induction over a generic AST) on the model of RewriteAtQuery + statement-level model of annotate/find tied by differential run; independent resolver as predicate",
+        text=(
+            "Kernel-checked, about the very functions the model driver runs (total, mutual structural recursion over the "
+            "nested-inductive tree mirroring Python's ast field by field): visit_replaced (at most one replacement), "
+            "visit_untouched (a sub-tree the search does not touch is returned unchanged, for any state), "
+            "visitItems_frame/visitItems_length (in every statement list walked, untouched statements come back at the "
+            "same index; nothing dropped, duplicated or reordered), visit_search. annotate_ancestry and find_in_ast are "
+            "modelled statement by statement (executable, not yet the subject of a theorem) and tied to the code on every "
+            "generated module; the property predicate is an independent resolver over ast run against the real code for "
+            "every case. The property is false today on several classes (eight recorded findings: D11, D12, D13, D25 and "
+            "four more); on the remaining domain the predicate held on every case explored."
+        ),
+        design="§7 C15",
+        note=TB + "find_in_ast/annotate_ancestry: model is `partial` (executable Impl), so no theorem speaks about it yet — correspondence + predicate only.",
+    ),
 }
 
 PENDING_REASON = "check not built yet in this round (work in progress; see DESIGN.md §10 build order) — not a claim that the technique cannot apply"
